@@ -621,7 +621,7 @@ pub fn gen_error(r: &mut Rng, deep: u32) -> definitions::Error {
     }
 }
 
-fn gen_modified(r: &mut Rng, deep: u32) -> Modified {
+pub fn gen_modified(r: &mut Rng, deep: u32) -> Modified {
     Modified {
         delivery_failed: opt(r, |r| r.chance(1, 2)),
         undeliverable_here: opt(r, |r| r.chance(1, 2)),
@@ -879,7 +879,7 @@ fn gen_sasl_mechanisms(r: &mut Rng) -> SaslMechanisms {
         ),
     }
 }
-fn gen_sasl_init(r: &mut Rng) -> SaslInit {
+pub fn gen_sasl_init(r: &mut Rng) -> SaslInit {
     SaslInit {
         mechanism: Symbol::from(*r.pick(&["ANONYMOUS", "PLAIN", "SCRAM-SHA-256", ""])),
         initial_response: opt(r, gen_bin),
@@ -887,7 +887,7 @@ fn gen_sasl_init(r: &mut Rng) -> SaslInit {
     }
 }
 const SASL_CODES: [SaslCode; 5] = [SaslCode::Ok, SaslCode::Auth, SaslCode::Sys, SaslCode::SysPerm, SaslCode::SysTemp];
-fn gen_sasl_outcome(r: &mut Rng) -> SaslOutcome {
+pub fn gen_sasl_outcome(r: &mut Rng) -> SaslOutcome {
     SaslOutcome { code: r.pick(&SASL_CODES).clone(), additional_data: opt(r, gen_bin) }
 }
 
